@@ -1,19 +1,177 @@
-use std::rc::Rc;
+//! Single-threaded simulation worker.
+//!
+//!   sim-worker run --prop C07 --tier quick --seed S --start I --count N --replay-dir DIR
+//!   sim-worker replay FILE
+//!   sim-worker digests --prop C07 --tier quick --seed S --start I --count N
+//!   sim-worker show --prop C07 --tier quick --seed S --index I
+//!
+//! stdout carries JSON lines only. Exit code: 0 ok, 1 violation(s), 2 harness error.
 
-use cucumber_sim::{genplan, runa};
+use std::{collections::BTreeMap, fs, path::PathBuf, process::ExitCode, rc::Rc};
 
-fn main() {
+use cucumber_sim::{
+    check::{self, Executed, ReplayFile, Stats},
+    core::splitmix,
+    genplan,
+    plan::Plan,
+};
+
+fn arg(args: &[String], name: &str) -> Option<String> {
+    args.iter().position(|a| a == name).and_then(|i| args.get(i + 1).cloned())
+}
+
+fn exec(prop: &str, plan: &Rc<Plan>) -> Result<Executed, String> {
+    match check::world_of(prop) {
+        'A' => check::execute_a(prop, plan),
+        w => Err(format!("harness: world {w} not available in this worker for {prop}")),
+    }
+}
+
+fn main() -> ExitCode {
     let args: Vec<String> = std::env::args().collect();
-    let seed: u64 = args.get(1).and_then(|s| s.parse().ok()).unwrap_or(1);
-    let prof = genplan::Profile::base(false);
-    let plan = Rc::new(genplan::gen_plan(seed, &prof));
-    println!("{}", serde_json::to_string(&*plan).unwrap());
+    let mode = args.get(1).cloned().unwrap_or_default();
+    let res = std::panic::catch_unwind(|| match mode.as_str() {
+        "run" => run(&args),
+        "replay" => replay(&args),
+        "digests" => digests(&args),
+        "show" => show(&args),
+        _ => Err(format!("unknown mode {mode:?}")),
+    });
+    match res {
+        Ok(Ok(code)) => ExitCode::from(code),
+        Ok(Err(e)) => {
+            eprintln!("HARNESS-ERROR: {e}");
+            ExitCode::from(2)
+        }
+        Err(_) => {
+            eprintln!("HARNESS-ERROR: worker panicked");
+            ExitCode::from(2)
+        }
+    }
+}
+
+struct Common {
+    prop: String,
+    tier: String,
+    seed: u64,
+    start: u64,
+    count: u64,
+}
+
+fn common(args: &[String]) -> Result<Common, String> {
+    Ok(Common {
+        prop: arg(args, "--prop").ok_or("--prop missing")?,
+        tier: arg(args, "--tier").unwrap_or_else(|| "quick".into()),
+        seed: arg(args, "--seed").and_then(|s| s.parse().ok()).unwrap_or(20_261_003),
+        start: arg(args, "--start").and_then(|s| s.parse().ok()).unwrap_or(0),
+        count: arg(args, "--count").and_then(|s| s.parse().ok()).unwrap_or(1),
+    })
+}
+
+fn plan_for(c: &Common, index: u64) -> (u64, Plan) {
+    let prof = check::profile_for(&c.prop, &c.tier);
+    let run_seed = splitmix(c.seed ^ prop_salt(&c.prop), index);
+    (run_seed, genplan::gen_plan(run_seed, &prof))
+}
+
+fn prop_salt(prop: &str) -> u64 {
+    let mut h = cucumber_sim::core::FNV_INIT;
+    cucumber_sim::core::fnv(&mut h, prop.as_bytes());
+    h
+}
+
+fn run(args: &[String]) -> Result<u8, String> {
+    let c = common(args)?;
+    let replay_dir = PathBuf::from(arg(args, "--replay-dir").unwrap_or_else(|| "/verif/replays".into()));
+    let max_replays: usize = arg(args, "--max-replays").and_then(|s| s.parse().ok()).unwrap_or(3);
+    let mut stats = Stats::default();
+    let mut classes: BTreeMap<String, u64> = BTreeMap::new();
+    let mut written = 0usize;
+    for i in c.start..c.start + c.count {
+        let (run_seed, plan) = plan_for(&c, i);
+        let plan = Rc::new(plan);
+        let e = exec(&c.prop, &plan)?;
+        stats.absorb_history(&plan, &e.history);
+        for v in &e.violations {
+            stats.violations += 1;
+            let class = v.class();
+            let n = classes.entry(class.clone()).or_insert(0);
+            *n += 1;
+            if *n == 1 && written < max_replays {
+                written += 1;
+                let rf = check::make_replay(&c.prop, c.seed, i, run_seed, &plan, v, &exec, 400)?;
+                stats.shrink_execs += rf.shrink_executions as u64;
+                fs::create_dir_all(&replay_dir).map_err(|e| e.to_string())?;
+                let path = replay_dir.join(format!("{}-{}-{}-{}.json", c.prop, check::build_name(), c.seed, i));
+                fs::write(&path, serde_json::to_string_pretty(&rf).map_err(|e| e.to_string())?).map_err(|e| e.to_string())?;
+                println!(
+                    "{}",
+                    serde_json::json!({"type":"violation","property":c.prop,"class":class,"code":v.code,"attrs":v.attrs,"msg":rf.violation.msg,"replay":path,"run_index":i})
+                );
+            }
+        }
+    }
+    println!("{}", serde_json::json!({"type":"classes","classes":classes}));
+    println!("{}", serde_json::json!({"type":"summary","stats":stats}));
+    Ok(u8::from(!classes.is_empty()))
+}
+
+fn replay(args: &[String]) -> Result<u8, String> {
+    let path = args.get(2).ok_or("replay: file missing")?;
+    let rf: ReplayFile = serde_json::from_str(&fs::read_to_string(path).map_err(|e| e.to_string())?).map_err(|e| e.to_string())?;
+    if rf.build != check::build_name() {
+        return Err(format!("replay file is for build {:?}, this worker is {:?}", rf.build, check::build_name()));
+    }
+    let plan = Rc::new(rf.minimised_plan.clone());
+    let e = exec(&rf.property, &plan)?;
+    let same = e.violations.iter().find(|v| v.class() == rf.class);
+    let digest = e.history.digest();
+    println!(
+        "{}",
+        serde_json::json!({"type":"replay","property":rf.property,"class":rf.class,"reproduced":same.is_some(),"digest_matches":digest==rf.digest,
+            "violations": e.violations.iter().map(|v| v.class()).collect::<Vec<_>>(), "msg": same.map(|v| v.msg.clone())})
+    );
+    if let Some(v) = same {
+        if digest == rf.digest {
+            println!("VIOLATION property={} replay={path}", rf.property);
+            eprintln!("{}", v.msg);
+            return Ok(1);
+        }
+        return Err("replay reproduced the violation but with a different schedule digest".into());
+    }
+    Ok(0)
+}
+
+fn digests(args: &[String]) -> Result<u8, String> {
+    let c = common(args)?;
+    for i in c.start..c.start + c.count {
+        let (_, plan) = plan_for(&c, i);
+        let plan = Rc::new(plan);
+        let e = exec(&c.prop, &plan)?;
+        println!("{i} {:016x} {}", e.history.digest(), e.violations.len());
+    }
+    Ok(0)
+}
+
+fn show(args: &[String]) -> Result<u8, String> {
+    let c = common(args)?;
+    let index: u64 = arg(args, "--index").and_then(|s| s.parse().ok()).unwrap_or(0);
+    let (_, plan) = plan_for(&c, index);
+    println!("{}", serde_json::to_string(&plan).map_err(|e| e.to_string())?);
     for f in &plan.features {
         println!("{}", f.gherkin());
     }
-    let h = runa::run_world_a(&plan).unwrap();
-    for e in &h.events {
-        println!("{}", e.short());
+    let plan = Rc::new(plan);
+    let e = exec(&c.prop, &plan)?;
+    for ev in &e.history.events {
+        println!("{}", ev.short());
     }
-    println!("end={:?} ended={} polls={} fired={} cbs={}", h.end, h.stream_ended, h.stats.root_polls, h.stats.timers_fired, h.cb.len());
+    for cb in &e.history.cb {
+        println!("CB {:?} {} #{} w={:?} [{}..{:?}] {:?} {:?}", cb.kind, cb.site, cb.ordinal, cb.world, cb.enter, cb.exit, cb.token, cb.finished_arg);
+    }
+    println!("end={:?} stats={:?}", e.history.end, e.history.stats);
+    for v in &e.violations {
+        println!("VIOL {} :: {}", v.class(), v.msg);
+    }
+    Ok(0)
 }
